@@ -89,4 +89,73 @@ inductive Der (S : Store) (α : Nat → Bool) : List Nat → Key → Prop
       0 < k → k.natAbs ∉ A → S.nodes[k.natAbs - 1]? = some (.disj cs nm) →
       c ∈ cs → Der S α (k.natAbs :: A) c → Der S α A (some k)
 
+/-- A valuation of keys closed under the immediate-consequence operator (a pre-fixpoint that reads atoms from `α`);
+    `lfp` is the least one (`C09_lfp_least`). -/
+structure Closed (S : Store) (α : Nat → Bool) (ρ : Key → Bool) : Prop where
+  tt : ρ (some 0) = true
+  lit : ∀ (k : Int) id g e nm, k ≠ 0 → S.nodes[k.natAbs - 1]? = some (.atom id g e nm) →
+    (if k < 0 then !α k.natAbs else α k.natAbs) = true → ρ (some k) = true
+  conj : ∀ (k : Int) cs nm, 0 < k → S.nodes[k.natAbs - 1]? = some (.conj cs nm) →
+    (∀ c ∈ cs, ρ c = true) → ρ (some k) = true
+  disj : ∀ (k : Int) cs nm, 0 < k → S.nodes[k.natAbs - 1]? = some (.disj cs nm) →
+    (∃ c ∈ cs, ρ c = true) → ρ (some k) = true
+
+/-! ### stratified negation: reduct, stable model, stratification -/
+
+/-- Gelfond–Lifschitz reduct of a child key w.r.t. a valuation `ν` of the node ids: a negative reference to a
+    *compound* node is replaced by its truth value under `ν` (FALSE if `ν` makes the node true, TRUE otherwise);
+    a dangling negative reference is TRUE (as in `cutEval`/`lfpEval`); everything else is kept. -/
+def reductKey (S : Store) (ν : Nat → Bool) : Key → Key
+  | none => none
+  | some k =>
+    if k < 0 then
+      match S.nodes[k.natAbs - 1]? with
+      | none => some 0
+      | some (.atom ..) => some k
+      | some (.conj ..) => if ν k.natAbs then none else some 0
+      | some (.disj ..) => if ν k.natAbs then none else some 0
+    else some k
+
+def reductNode (S : Store) (ν : Nat → Bool) : Node → Node
+  | .atom i g e n => .atom i g e n
+  | .conj cs n => .conj (cs.map (reductKey S ν)) n
+  | .disj cs n => .disj (cs.map (reductKey S ν)) n
+
+/-- The reduct of the store: a `Positive` store (`positive_reduct`). -/
+def reduct (S : Store) (ν : Nat → Bool) : Store := { S with nodes := S.nodes.map (reductNode S ν) }
+
+/-- `ν` is a stable model of the store under the atom assignment `α`: it is the least model of its own reduct. -/
+def StableModel (S : Store) (α : Nat → Bool) (ν : Nat → Bool) : Prop :=
+  ∀ j : Nat, 0 < j → ν j = lfp (reduct S ν) α (some (j : Int))
+
+/-- The valuation of the node ids computed by the cut evaluation. -/
+def cutν (S : Store) (α : Nat → Bool) (j : Nat) : Bool := cutEval S α (S.nodes.length + 1) [] (some (j : Int))
+
+/-- Child `c` of node `i` respects the level mapping: no child is on a higher level, and a negated compound child is on
+    a strictly lower one. -/
+def stratKey (S : Store) (lvl : Nat → Nat) (i : Nat) : Key → Bool
+  | none => true
+  | some k =>
+    if k = 0 then true else
+    decide (lvl k.natAbs ≤ lvl i) &&
+      (if k < 0 then
+        match S.nodes[k.natAbs - 1]? with
+        | some (.conj ..) => decide (lvl k.natAbs < lvl i)
+        | some (.disj ..) => decide (lvl k.natAbs < lvl i)
+        | _ => true
+       else true)
+
+/-- `lvl` is a stratification of the store (executable check). -/
+def stratifiedBy (S : Store) (lvl : Nat → Nat) : Bool :=
+  (List.range S.nodes.length).all (fun j =>
+    match S.nodes[j]? with
+    | some (.conj cs _) => cs.all (stratKey S lvl (j + 1))
+    | some (.disj cs _) => cs.all (stratKey S lvl (j + 1))
+    | _ => true)
+
+abbrev Stratified (S : Store) (lvl : Nat → Nat) : Prop := stratifiedBy S lvl = true
+
+/-- No cycle passes through a negative edge to a compound node ⇔ a stratification exists. -/
+def NoNegCycle (S : Store) : Prop := ∃ lvl, Stratified S lvl
+
 end ProbLogModel.Cycles
